@@ -36,8 +36,11 @@ ASSUMPTIONS = [
     "agreement with a debug build's Command::build() is part of the correspondence (INVALID must coincide)",
     "no multicall, no Command::defer, built-in value parsers only",
     "stack/heap exhaustion and wall-clock are outside the theorem; the harness run has a per-shard timeout",
-    "C01_no_panic is proved for commands without short flag-subcommands (class no_short_flag_sub); the resume "
-    "counter of nested short flag-subcommands is the recorded finding C01-flag-subcmd-skip",
+    "C01_no_panic is proved for commands without short flag-subcommands (class plain) and, round 4, "
+    "C01_no_panic_flag_subs for the boolean class flag_sub_class (short flag-subcommands allowed; every level a "
+    "cluster can re-enter has no short flag-subcommands of its own and a first positional without negative-number / "
+    "non-last hyphen values); outside that class the resume counter of short flag-subcommands is the recorded "
+    "finding C01-flag-subcmd-skip",
 ]
 TECHNIQUE = ("Coq proof (state invariant of the parse loop: every unwrap/expect/unreachable!/debug_assert site of "
              "parser.rs/arg_matcher.rs on the path is dead for commands accepted by the validity gate; fuel = tree depth "
@@ -66,9 +69,12 @@ LEVEL_NOTE = ("Trusted: Coq kernel, extraction, OCaml driver, Rust harness, gene
               "flag-subcommands whose intermediate flag consumes a number of indices other than one make the "
               "flag_subcmd_skip debug assertion fail (debug builds panic, release builds reject the line); round 2 found two "
               "more mechanisms reaching the same assertion with one-index flags only (stale flag_subcmd_at across clusters; "
-              "skip left unconsumed when the re-read cluster is taken as a hyphen value): C01_no_panic_*_refuted. The main "
-              "no-panic theorem therefore stays stated for definitions without short flag-subcommands. Not compared: error text, "
-              "suggestion context kinds.")
+              "skip left unconsumed when the re-read cluster is taken as a hyphen value): C01_no_panic_*_refuted. Round 4 "
+              "proves the no-panic theorem for the class in which neither mechanism can occur (flag_sub_class: short "
+              "flag-subcommands one level deep below any chain of ordinary subcommands, re-entered level without a "
+              "negative-number / non-last hyphen-value first positional); definitions with short flag-subcommands outside that "
+              "class are covered by the correspondence run and the direct oracle only. Not compared: error text, suggestion "
+              "context kinds.")
 
 KNOWN_SKIP_MSG = "tracking of `flag_subcmd_skip` is off"
 
